@@ -2979,7 +2979,7 @@ CALSCALE:GREGORIAN\n";
 	return;
 }
 
-void
+int
 echs_icalify_fini(int whither)
 {
 	static const char ftr[] = "\
@@ -2991,7 +2991,12 @@ END:VCALENDAR\n";
 	fdwrite(ftr, strlenof(ftr));
 	/* that's the last thing in line, just send it off */
 	fdflush();
-	return;
+	/* report and forget */
+	if (UNLIKELY(fd_aux.err)) {
+		fd_aux.err = 0;
+		return -1;
+	}
+	return 0;
 }
 
 /* evical.c ends here */
